@@ -102,7 +102,7 @@ def analyse(obs: Obs, prog):
     gi = call0(SELF, "get_idx")
     subs = ("attr", SELF, "subtraces")
     okc = is_call(r.ret, "switch") and len(r.ret[2]) == 2 and r.ret[2][0] == gi and r.ret[2][1] == ("fam", subs, choices_of(("elem", subs)))
-    obs.add({"C13", "C01", "C17"}, "TRACE-CHOICES", "SwitchTrace.get_choices", okc, derived=r.ret, expected="ChoiceMap.switch(self.get_idx(), [tr.get_choices() for tr in self.subtraces])", where=W(ST, "get_choices"))
+    obs.add({"C13", "C01", "C17", "C34"}, "TRACE-CHOICES", "SwitchTrace.get_choices", okc, derived=r.ret, expected="ChoiceMap.switch(self.get_idx(), [tr.get_choices() for tr in self.subtraces])", where=W(ST, "get_choices"))
     r = ev.eval_fn(ST.methods["get_inner_trace"], ST.module, ST)
     oki = r.ret == ("call", ("attr", ("index", subs, gi), "get_inner_trace"), (P("address"),), ())
     # ... but `self.subtraces` is a Python LIST: indexing it needs a concrete index.  The trace's index is an array whenever the switch runs under vmap / scan /
